@@ -500,6 +500,16 @@ fn dump_fn<'tcx>(tcx: TyCtxt<'tcx>, ldid: LocalDefId) -> Option<(String, J)> {
         pj.push(J::Arr(ks));
     }
     o.push(("proms".into(), J::Arr(pj)));
+    // full bodies of the promoteds (same block format), for constant folding of e.g. `&{0u64 + 1u64}` or `&Ok(Repr::X)`
+    let mut pb_full = Vec::new();
+    for pb in proms.iter() {
+        let pcx = Ctx { tcx, body: pb, def: did, env };
+        let blocks: Vec<J> = pb.basic_blocks.iter().map(|bb| pcx.block(bb)).collect();
+        pb_full.push(J::Arr(blocks));
+    }
+    if !pb_full.is_empty() {
+        o.push(("pbodies".into(), J::Arr(pb_full)));
+    }
     Some((name, J::Obj(o)))
 }
 
